@@ -31,15 +31,26 @@ LEVEL_TEXT = ("The schedule is a property of the loop structure and one modular 
 LEVEL_NOTE = "Trusted: numpy SeedSequence/spawn semantics; trange(n) == range(n). Undecided: statistical non-overlap of spawned streams (numpy's guarantee)."
 
 
+class _Case:
+    def __init__(self, body):
+        self.body = body
+
+
 def case_body(f, cls_name):
+    """statements executed for models of class `cls_name`: a `case Cls():` arm of the match statement, or the arm of an
+    `if isinstance(model, Cls): ... elif ...` chain"""
     m = [n for n in walk_own(f.node) if isinstance(n, ast.Match)]
-    if len(m) != 1:
-        raise AnalysisError("sampling.sample: match statement not found")
-    for c in m[0].cases:
-        p = c.pattern
-        if isinstance(p, ast.MatchClass) and U(p.cls) == cls_name:
-            return c
-    raise AnalysisError(f"sampling.sample: case {cls_name}() not found")
+    if len(m) == 1:
+        for c in m[0].cases:
+            p = c.pattern
+            if isinstance(p, ast.MatchClass) and U(p.cls) == cls_name:
+                return c
+        raise AnalysisError(f"sampling.sample: case {cls_name}() not found")
+    model = f.params[0]
+    for n in walk_own(f.node):
+        if isinstance(n, ast.If) and U(n.test).replace(" ", "") == f"isinstance({model},{cls_name})":
+            return _Case(n.body)
+    raise AnalysisError(f"sampling.sample: neither `match {model}` with `case {cls_name}()` nor `isinstance({model}, {cls_name})` found")
 
 
 def is_step(c, model):
@@ -50,10 +61,35 @@ def loops_in(case):
     return [n for n in case.body if isinstance(n, (ast.For, ast.While))]
 
 
-def loop_count(loop):
-    """iteration count expression of `for x in range(n)` / trange(n, ...)"""
-    if isinstance(loop, ast.For) and isinstance(loop.iter, ast.Call) and call_name(loop.iter) in ("range", "trange", "tqdm.trange") and len(loop.iter.args) == 1:
-        return loop.iter.args[0]
+def loop_count(loop, env=None):
+    """(iteration count expression, index variable name, start offset) of
+    `for i in range(n)` / `trange(n, ...)` / `for i, _ in enumerate(trange(n), start=k)`; iterables may be named locals"""
+    it = loop.iter
+    if isinstance(it, ast.Name) and env and it.id in env:
+        it = env[it.id]
+    start = 0
+    var = U(loop.target)
+    if isinstance(it, ast.Call) and call_name(it) == "enumerate" and it.args:
+        inner = it.args[0]
+        if isinstance(inner, ast.Name) and env and inner.id in env:
+            inner = env[inner.id]
+        st = kwargs(it).get("start", it.args[1] if len(it.args) > 1 else None)
+        if st is not None:
+            if not (isinstance(st, ast.Constant) and isinstance(st.value, int)):
+                return None
+            start = st.value
+        if not isinstance(loop.target, ast.Tuple):
+            return None
+        var = U(loop.target.elts[0])
+        it = inner
+    if isinstance(it, ast.Call) and call_name(it) in ("range", "trange", "tqdm.trange", "tqdm.tqdm") and len(it.args) == 1:
+        a = it.args[0]
+        if call_name(it) == "tqdm.tqdm":
+            if isinstance(a, ast.Call) and call_name(a) == "range" and len(a.args) == 1:
+                a = a.args[0]
+            else:
+                return None
+        return a, var, start
     return None
 
 
@@ -104,9 +140,12 @@ def r_all(ctx):
     want_burn = N.n(parse_expr("n_burnin"))
     want_main = N.n(parse_expr(f"{results}.n_thetas * thin"))
     offset = Poly()
+    start = 0
     if len(lps) == 2:
-        c0, c1 = loop_count(lps[0]), loop_count(lps[1])
-        ctx.need(c0 is not None and c1 is not None, "sampling.sample: loop bounds are not range/trange(n)")
+        lc0, lc1 = loop_count(lps[0], env), loop_count(lps[1], env)
+        ctx.need(lc0 is not None and lc1 is not None, "sampling.sample: loop bounds are not range/trange(n)")
+        c0, c1 = lc0[0], lc1[0]
+        iv_main, start = lc1[1], lc1[2]
         ctx.check("R2", f"{f.site()}::burn-in-loop", N.n(c0) == want_burn and one_unconditional_step(lps[0], model),
                   "one unconditional step per iteration of a loop over n_burnin",
                   f"burn-in loop runs `{U(c0)}` iterations / does not step exactly once per iteration")
@@ -115,8 +154,9 @@ def r_all(ctx):
                   f"sampling loop runs `{U(inline(c1, env))}` iterations / does not step exactly once per iteration")
         main = lps[1]
     elif len(lps) == 1:
-        c = loop_count(lps[0])
-        ctx.need(c is not None, "sampling.sample: loop bound is not range/trange(n)")
+        lc = loop_count(lps[0], env)
+        ctx.need(lc is not None, "sampling.sample: loop bound is not range/trange(n)")
+        c, iv_main, start = lc
         ctx.check("R2", f"{f.site()}::merged-loop", N.n(c) == want_burn + want_main and one_unconditional_step(lps[0], model),
                   "one unconditional step per iteration of a single loop over n_burnin + n_thetas * thin",
                   f"loop runs `{U(inline(c, env))}` iterations / does not step exactly once per iteration")
@@ -126,7 +166,8 @@ def r_all(ctx):
     else:
         raise AnalysisError(f"sampling.sample: expected one or two stepping loops in the MCMC arm, found {len(lps)}")
     # ---- R3 thinning predicate
-    iv = U(main.target)
+    iv = iv_main
+    lenv_main = {n.targets[0].id: n.value for n in main.body if isinstance(n, ast.Assign) and len(n.targets) == 1 and isinstance(n.targets[0], ast.Name)}
     adds = [c for c in calls(main, tail="add_theta")]
     ctx.need(len(adds) == 1, "sampling.sample: results.add_theta(...) not found in the sampling loop")
     add = adds[0]
@@ -146,6 +187,13 @@ def r_all(ctx):
             conds.append((st.test, True))
     mods = []
     burn_skip_ok = offset.is_zero()
+    conds = [(inline(t, lenv_main), neg) for t, neg in conds]
+    norm_conds = []
+    for t, neg in conds:
+        while isinstance(t, ast.UnaryOp) and isinstance(t.op, ast.Not):
+            t, neg = t.operand, not neg
+        norm_conds.append((t, neg))
+    conds = norm_conds
     for t, negated in conds:
         form = modular_form(t, iv, N, negated)
         if form is not None:
@@ -160,6 +208,7 @@ def r_all(ctx):
     ctx.need(len(mods) == 1, f"sampling.sample: expected exactly one modular thinning predicate, found {len(mods)}")
     a, b, t = mods[0]
     thin = N.n(parse_expr("thin"))
+    a = a + Poly.const(start)          # the loop variable is (0-based index + start)
     cong = b - a + Poly.const(1) + offset
     ok = t == thin and (cong.is_zero() or cong == thin or cong == -thin) and burn_skip_ok
     ctx.check("R3", f"{f.site()}::thinning-congruence", ok,
@@ -167,7 +216,7 @@ def r_all(ctx):
               f"thinning predicate ((i + {a}) mod {t}) == {b} with offset {offset}: b - a + 1 + offset = {cong} is not a multiple of thin, so "
               f"the recorded states are not those after steps t, 2t, ... counted from the end of burn-in")
     # recorded value: get_model_state() after the step of the same iteration
-    argv = add.args[0] if add.args else None
+    argv = inline(add.args[0], lenv_main) if add.args else None
     st_calls = [c for c in calls(main) if is_step(c, model)]
     after = argv is not None and U(argv) == f"{model}.get_model_state()" and U(add.func.value) == results and all(
         (s.lineno, s.col_offset) < (add.lineno, add.col_offset) for s in st_calls)
@@ -228,10 +277,31 @@ def modular_form(t, iv, N, negated=False):
     return a, N.n(r), N.n(l.right)
 
 
+def delegate(ctx, f, case, model, results):
+    """if the arm only delegates to one repository helper that receives the model and the holder, analyse the helper's
+    body instead (with its own parameter names)"""
+    body = [st for st in case.body if not (isinstance(st, ast.Expr) and isinstance(st.value, ast.Constant))]
+    cs = [c for st in body for c in calls(st) if isinstance(c.func, ast.Name) and ctx.R.chase(f.mod, c.func.id) in ctx.R.funcs]
+    own = [c for st in body for c in calls(st) if U(c.func).startswith(model + ".")]
+    if own or len(cs) != 1:
+        return case, model, results
+    h = ctx.R.funcs[ctx.R.chase(f.mod, cs[0].func.id)]
+    names = {}
+    for p, a in zip(h.params, cs[0].args):
+        names[U(a)] = p
+    for k in cs[0].keywords:
+        names[U(k.value)] = k.arg
+    if model in names and results in names:
+        ctx.functions.add(h.qname)
+        return _Case(h.node.body), names[model], names[results]
+    return case, model, results
+
+
 def r5(ctx):
     f = ctx.fn("sampling.sample")
     model, results = f.params[0], f.params[1]
     case = case_body(f, "VIModel")
+    case, model, results = delegate(ctx, f, case, model, results)
     mod = ast.Module(body=case.body, type_ignores=[])
     sc = [c for c in calls(mod) if U(c.func) == f"{model}.sample"]
     par = enclosing_map(mod)
